@@ -302,7 +302,7 @@ func init() {
 	eng.Register(&eng.Scenario{
 		Name: "list-2-2", Props: []string{"C12"}, MustFinish: true, ObsNames: obs,
 		Doc:   "LinkedList: 2 threads x 2 operations, empty initial list, deeper preemption bound",
-		Quick: eng.Bounds{PB: 3}, Thorough: eng.Bounds{PB: 8},
+		Quick: eng.Bounds{PB: 3}, Thorough: eng.Bounds{PB: 4},
 		Body: listBody([]int{2, 2}, 0), Post: linPost(dequeModel, "C12.list-linearizable"),
 	})
 }
